@@ -460,7 +460,7 @@ impl<T: Value, N: Unsigned, U: UpdateMap<T>> Encode for List<T, N, U> {
 
     fn ssz_bytes_len(&self) -> usize {
         if <T as Encode>::is_ssz_fixed_len() {
-            <T as Encode>::ssz_fixed_len() * self.len()
+            <T as Encode>::ssz_fixed_len().saturating_mul(self.len())
         } else {
             let mut len = self.iter().map(|item| item.ssz_bytes_len()).sum();
             len += BYTES_PER_LENGTH_OFFSET * self.len();
